@@ -15,7 +15,8 @@ PROP = {
     'rule': 'receive: 1-6 sources (pairs share an IP), id pool of 1-10 ids, 1-60 operations {new message (2-8 chunks, 1-1500 bytes, any cut '
             'points), deliver a missing chunk, deliver any chunk again, complete in a drawn permutation, ill-formed frame (count<2, count>8, '
             'index>=count, padLen past end, truncated, empty, reserved bits), short-header packet, advance 1 ms..20 s, flood of 1-12 first '
-            'chunks}; global-cap cases: 513-640 sources, 4000-4096 pending in 1-4 age classes, 0-700 overflow first-chunks, 1-4 tracked '
+            'chunks, frame for a pending (source, id) announcing another chunk count (larger/smaller, index inside/outside either count)}; '
+            'the wrappers sit over a plain or a UDP-like inner socket (the package\'s obfsPacketConnUDP variant); global-cap cases: 513-640 sources, 4000-4096 pending in 1-4 age classes, 0-700 overflow first-chunks, 1-4 tracked '
             'messages. Non-trivial: a message of >= 3 chunks completed in non-identity order with a foreign frame in between, or a '
             'per-source cap / TTL expiry / global eviction event. Send: every option combination (both / only min / only max / neither; values below, at and above the defaults '
             '512/1200 and the bounds 1/2048, illegal ones included): either the constructor rejects, or every datagram that can fit lies in '
